@@ -183,11 +183,14 @@ def guards (prog : List HOp) : List (Nat × Nat) :=
     | .guard a b => some (a, b)
     | _ => none
 
+/-- bytes of a layout, as `a + b·n` -/
+def consumedL : List FK → Nat × Nat
+  | [] => (0, 0)
+  | .certs :: rest => ((consumedL rest).1, (consumedL rest).2 + 1)
+  | k :: rest => ((consumedL rest).1 + k.size 0, (consumedL rest).2)
+
 /-- bytes a reader consumes, as `a + b·n` -/
-def consumed (prog : List HOp) : Nat × Nat :=
-  (layoutOf prog).foldl (fun (acc : Nat × Nat) k => match k with
-    | .certs => (acc.1, acc.2 + 1)
-    | k => (acc.1 + k.size 0, acc.2)) (0, 0)
+def consumed (prog : List HOp) : Nat × Nat := consumedL (layoutOf prog)
 
 /-- some guard covers everything the reader consumes, for every certificate length -/
 def guardCovers (prog : List HOp) : Bool :=
@@ -230,6 +233,12 @@ def onlyAfterCheck (prog : List HOp) (c b : String) : Bool :=
     | _ => false
 
 def computes (prog : List HOp) (what : String) : Bool := (firstCompute prog what).isSome
+
+/-- the first operation is a length guard of at least 4 bytes -/
+def firstGuardAtLeast4 (prog : List HOp) : Bool :=
+  match prog.head? with
+  | some (.lenGuard _ a _) => decide (4 ≤ a)
+  | _ => false
 
 /-- the whole case body is gated by `if !s.config.IsHidden` -/
 def gatedByNotHidden (prog : List HOp) : Bool :=
